@@ -64,7 +64,7 @@ Accepted subset (anything else raises TranslateError with file:line):
               docstrings;  pass.
   expressions names;  int constants, -e, a + b, a - b on ints;  s + t, s + c on strings;
               len(s);  s[a:b] with optional int bounds;  s[i];  the attribute / subscript
-              forms listed above;  a < b, <=, >, >=, ==, != on ints;  k in P / k not in P on the
+              forms listed above;  a < b, <=, >, >=, ==, != on ints, also chained (a <= b <= c, operands that cannot raise);  k in P / k not in P on the
               cache;  not e;  `and` / `or` of expressions that cannot raise;  True / False;
               calls of an already translated function of SPECS with the trainer variable as
               first argument (positional or keyword arguments, defaults filled in).
@@ -298,7 +298,19 @@ class FunctionTranslator:
 
     def compare(self, e, env):
         if len(e.ops) != 1 or len(e.comparators) != 1:
-            self.fail(e, "chained comparison")
+            # a OP b OP c is (a OP b) and (b OP c) with b evaluated once: accepted for int operands that cannot
+            # raise (nothing in the subset has an effect), so evaluating b twice and not short-circuiting is the same
+            operands = [e.left] + list(e.comparators)
+            parts = []
+            n = len(self.pre)
+            for l, op, r in zip(operands, e.ops, operands[1:]):
+                if isinstance(op, (ast.In, ast.NotIn)):
+                    self.fail(e, "chained comparison with `in`")
+                t, ty = self.compare(ast.copy_location(ast.Compare(l, [op], [r]), e), env)
+                parts.append(_paren(t))
+            if len(self.pre) != n:
+                self.fail(e, "a chained comparison must not contain a sub-expression that can raise")
+            return "(" + " && ".join(parts) + ")", BOOL
         op, right = e.ops[0], e.comparators[0]
         if isinstance(op, (ast.In, ast.NotIn)):
             t = self.member(e, e.left, right, env)
